@@ -355,4 +355,41 @@ def World.WF (w : World) : Prop :=
   w.filters.ptr.length = w.stores.length ∧ w.tests.ptr.length = w.stores.length ∧
   w.globals.ptr.length = w.stores.length
 
+/-! ## state identity: which render a macro value belongs to
+
+`vm/state.rs`: every `State` (one per render, also per `empty_state()`/`render_str`) takes its `id`
+from ONE process-wide counter `STATE_ID` (`fetch_add(1)`, an atomic: the increments of all threads
+are totally ordered — an assumption about `std`).  `vm/mod.rs` stamps `state_id: state.id` into
+every macro value it builds; `Macro::call` refuses to run when `state.id != self.state_id`
+("cannot call this macro. template state went away.").  Counter wrap-around (2^64 states) is not
+modelled. -/
+
+/-- the counter and, in creation order, the states created so far as `(thread, id)` -/
+structure IdSys where
+  next : Nat
+  created : List (Nat × Nat)
+
+def IdSys.init : IdSys := { next := 0, created := [] }
+
+/-- `State::new` on thread `t` -/
+def IdSys.newState (s : IdSys) (t : Nat) : IdSys :=
+  { next := s.next + 1, created := s.created ++ [(t, s.next)] }
+
+/-- any interleaving of renders started by any threads: the list of the threads in the order in
+    which their `fetch_add` took effect -/
+def IdSys.run (s : IdSys) : List Nat → IdSys
+  | [] => s
+  | t :: ts => IdSys.run (s.newState t) ts
+
+/-- `Macro::call`: may a macro stamped with `macroStateId` run in the state `stateId`? -/
+def macroAccepted (stateId macroStateId : Nat) : Bool := stateId == macroStateId
+
+/-- The design the seeded mutant C15-2 introduced, for contrast: one counter per thread. -/
+def perThreadId (created : List (Nat × Nat)) (t : Nat) : Nat :=
+  (created.filter (fun p => p.1 == t)).length
+
+def perThreadRun (created : List (Nat × Nat)) : List Nat → List (Nat × Nat)
+  | [] => created
+  | t :: ts => perThreadRun (created ++ [(t, perThreadId created t)]) ts
+
 end MJ.Store
